@@ -100,7 +100,18 @@ func (x *Exec) run(st *State) {
 		case *ssa.Go:
 			x.note("goroutine creation ignored in %s", fr.fn)
 		case *ssa.Send:
-			x.note("channel send ignored in %s", fr.fn)
+			ch := fr.get(x, v.Chan)
+			if c := x.chanInv(ch); c != nil {
+				env := &Env{x: x, st: st, vars: map[string]SV{"v": fr.get(x, v.X)}, pkg: fr.fn.Pkg.Pkg}
+				t, err := env.EvalBool(c.expr)
+				if err != nil {
+					panic(abortErr{fmt.Sprintf("%s:%d: chan invariant: %v", c.file, c.line, err)})
+				}
+				_, txt := x.srcLine(v.Pos())
+				x.oblige(st, fmt.Sprintf("chan:%s:%s:%s", x.targetName(), ch.chanKey, txt), "pre", "channel invariant "+c.text, v.Pos(), t)
+			} else {
+				x.note("channel send ignored in %s", fr.fn)
+			}
 		case *ssa.Store:
 			addr := fr.get(x, v.Addr)
 			val := fr.get(x, v.Val)
@@ -412,9 +423,11 @@ func (x *Exec) evalValue(st *State, fr *Frame, v ssa.Value) SV {
 		case token.XOR:
 			return scalarSV(n.Type(), BvNot(a.t()))
 		case token.ARROW:
-			x.note("channel receive in %s yields an unconstrained value", fr.fn)
 			r := freshSV(n.Type(), "recv")
 			x.wf(st, r)
+			if !x.chanAssume(st, fr, a, r, n.CommaOk) {
+				x.note("channel receive in %s yields an unconstrained value", fr.fn)
+			}
 			return r
 		}
 	case *ssa.ChangeType:
@@ -555,6 +568,30 @@ func (x *Exec) evalValue(st *State, fr *Frame, v ssa.Value) SV {
 		}
 		st.assume(BvCmp("bvsle", mkBV(int64(lo), 64), r.l[0]))
 		st.assume(BvCmp("bvslt", r.l[0], mkBV(int64(nst), 64)))
+		// channel invariants for the received values (tuple: index, recvOk, values of the recv states in order)
+		tt := n.Type().(*types.Tuple)
+		off := len(leavesOf(tt.At(0).Type())) + len(leavesOf(tt.At(1).Type()))
+		k := 2
+		for si, sst := range n.States {
+			if sst.Dir != types.RecvOnly {
+				continue
+			}
+			vt := tt.At(k).Type()
+			nl := len(leavesOf(vt))
+			val := SV{ty: vt, l: r.l[off : off+nl]}
+			ch := fr.get(x, sst.Chan)
+			if c := x.chanInv(ch); c != nil {
+				env := &Env{x: x, st: st, vars: map[string]SV{"v": val}, pkg: fr.fn.Pkg.Pkg}
+				t, err := env.EvalBool(c.expr)
+				if err != nil {
+					panic(abortErr{fmt.Sprintf("%s:%d: chan invariant: %v", c.file, c.line, err)})
+				}
+				// holds when this case fired and the channel was open
+				st.assume(Implies(And(Eq(r.l[0], mkBV(int64(si), 64)), r.l[1]), t))
+			}
+			off += nl
+			k++
+		}
 		return r
 	case *ssa.SliceToArrayPointer:
 		a := fr.get(x, n.X)
@@ -863,4 +900,42 @@ func (x *Exec) binop(st *State, fr *Frame, n *ssa.BinOp) SV {
 		panic(abortErr{"unsupported binop " + n.Op.String()})
 	}
 	return scalarSV(n.Type(), BvBin(op, at, bt))
+}
+
+// chanInv finds the declared invariant of a channel value (by the struct field it was loaded from).
+func (x *Exec) chanInv(ch SV) *Clause {
+	if ch.chanKey == "" {
+		return nil
+	}
+	for _, pc := range x.contracts {
+		for k, c := range pc.chans {
+			// k = pkgpath.Type.field ; chanKey = pkgpath.Type + ".field"
+			if k == ch.chanKey {
+				return c
+			}
+		}
+	}
+	return nil
+}
+
+func (x *Exec) chanAssume(st *State, fr *Frame, ch SV, val SV, commaOk bool) bool {
+	c := x.chanInv(ch)
+	if c == nil {
+		return false
+	}
+	v := val
+	var okT *Term = True
+	if commaOk && len(val.tup) == 2 {
+		v = val.tup[0]
+		okT = val.tup[1].t()
+	} else if commaOk {
+		return false
+	}
+	env := &Env{x: x, st: st, vars: map[string]SV{"v": v}, pkg: fr.fn.Pkg.Pkg}
+	t, err := env.EvalBool(c.expr)
+	if err != nil {
+		panic(abortErr{fmt.Sprintf("%s:%d: chan invariant: %v", c.file, c.line, err)})
+	}
+	st.assume(Implies(okT, t))
+	return true
 }
